@@ -42,7 +42,7 @@ func graphExpect(name string) []Expect {
 // Catalogue returns every operation the pipeline drivers exercise.
 func Catalogue() []Op {
 	var ops []Op
-	mm := map[string]string{"users": "User", "pets": "Pet", "langs": "Lang", "profiles": "Profile", "memos": "Memo", "drafts": "Draft"}
+	mm := map[string]string{"users": "User", "pets": "Pet", "langs": "Lang", "profiles": "Profile", "memos": "Memo", "drafts": "Draft", "stamps": "Stamp"}
 	add := func(o Op) { o.MainModel = mm[o.Main]; ops = append(ops, o) }
 
 	// ---- create ---------------------------------------------------------------------------
@@ -178,6 +178,12 @@ func Catalogue() []Op {
 			ms := []fam.Memo{{ID: 1, Name: "m1"}, {ID: 2, Name: "m2"}}
 			return db.Delete(&ms).Error
 		}})
+	add(Op{Name: "stamp_create", Kind: "create", Write: true, Main: "stamps", Expect: ex("Stamp", "create", "sN"),
+		Run: func(db *gorm.DB) error { return db.Create(&fam.Stamp{Name: "sN"}).Error }})
+	add(Op{Name: "stamp_create_slice", Kind: "create", Write: true, Main: "stamps", Expect: ex("Stamp", "create", "sA", "sB"),
+		Run: func(db *gorm.DB) error { return db.Create(&[]fam.Stamp{{Name: "sA"}, {Name: "sB"}}).Error }})
+	add(Op{Name: "stamp_update", Kind: "update", Write: true, Main: "stamps", Expect: ex("Stamp", "update", "s1"),
+		Run: func(db *gorm.DB) error { return db.Model(&fam.Stamp{ID: 1, Name: "s1"}).Update("v", 7).Error }})
 	add(Op{Name: "draft_create", Kind: "create", Write: true, Main: "drafts", Expect: ex("Draft", "create", "dN"),
 		Run: func(db *gorm.DB) error { return db.Create(&fam.Draft{Name: "dN"}).Error }})
 	add(Op{Name: "draft_update", Kind: "update", Write: true, Main: "drafts", Expect: ex("Draft", "update", "d1"),
@@ -316,6 +322,20 @@ func Catalogue() []Op {
 			_ = db.Session(&gorm.Session{NewDB: true, Context: other})
 			_ = db.Session(&gorm.Session{NewDB: true, Context: other, SkipDefaultTransaction: true})
 			return db.Model(&fam.User{}).Where("id = ?", 1).Update("age", 56).Error
+		}})
+
+	// ---- a single-row read through Row(), and a session that brings its own context together with PrepareStmt
+	add(Op{Name: "row_scan", Kind: "query", Main: "users", NoHooks: true,
+		Run: func(db *gorm.DB) error {
+			var name string
+			return db.Model(&fam.User{}).Select("name").Where("id = ?", 1).Row().Scan(&name)
+		}})
+	add(Op{Name: "ctx_session_prepare_own_context", Kind: "query", Main: "users", Expect: ex("User", "find", "u1"),
+		Run: func(db *gorm.DB) error {
+			foreign := db.WithContext(context.WithValue(context.Background(), ctxKey{}, "foreign-context"))
+			h := foreign.Session(&gorm.Session{PrepareStmt: true, Context: db.Statement.Context})
+			var us []fam.User
+			return h.Where("id = ?", 1).Find(&us).Error
 		}})
 
 	// ---- explicit transactions (C18: context at any nesting) ------------------------------
